@@ -52,9 +52,13 @@ def _bundle(mgr):
 
 
 def _stored_identity(mgr, who):
-    c = mgr._store.identityKeyStore.dbConn.cursor()
-    c.execute("SELECT public_key FROM identities WHERE recipient_id = ?", (who,))
-    r = c.fetchone()
+    """what a process started NOW would read: the committed state, through an independent connection"""
+    import sqlite3
+    c = sqlite3.connect(str(mgr._store))
+    try:
+        r = c.execute("SELECT public_key FROM identities WHERE recipient_id = ?", (who,)).fetchone()
+    finally:
+        c.close()
     return bytes(r[0]) if r else None
 
 
@@ -179,6 +183,41 @@ def h_step_getkeys(ctx):
             ("no plaintext leaves in either case", all(m.getChild("proto") is None for m in msgs))]
 
 
+def h_step_receive(ctx):
+    """AxolotlReceivelayer.handleEncMessage when the manager reports an untrusted identity: ignored unless the application
+    switched auto-trust ON (option unset or off: refused; nothing is trusted behind the application's back)"""
+    from axolotl.untrustedidentityexception import UntrustedIdentityException as AxUntrusted
+    st, bottom, app, mgr = ST.build(enc=True, **ST.FLAG_SETS["all"])
+    from yowsup.layers.axolotl.props import PROP_IDENTITY_AUTOTRUST
+    opt = ctx.choice("autotrust_option", ["unset", False, True])
+    if opt != "unset":
+        st.setProp(PROP_IDENTITY_AUTOTRUST, opt)
+    calls = []
+    state = {"trusted": False}
+
+    def decrypt_pkmsg(sender, data, unpad):
+        calls.append(("decrypt", sender))
+        if not state["trusted"]:
+            raise AxUntrusted(sender, "NEWKEY")
+        from yowsup.layers.protocol_messages.proto.e2e_pb2 import Message
+        m = Message()
+        m.conversation = "hi"
+        return m.SerializeToString()
+
+    def trust_identity(name, key):
+        calls.append(("trust_identity", name))
+        state["trusted"] = True
+    mgr.decrypt_pkmsg, mgr.trust_identity = decrypt_pkmsg, trust_identity
+    N = SC.N()
+    mid, sender = H.zstr(ctx, "id"), H.zstr(ctx, "from")
+    bottom.inject(N("message", {"id": mid, "from": sender, "type": "text", "t": "1400000000"}, [N("enc", {"type": "pkmsg", "v": "2"}, None, b"\x33\x08ct")]))
+    accepted = opt is True
+    trusted = [c for c in calls if c[0] == "trust_identity"]
+    return [("new identity is stored only if the application switched auto-trust on (option %s)" % opt, (len(trusted) == 1) == accepted),
+            ("message under the changed identity is delivered only under auto-trust", (len(app.up) == 1) == accepted),
+            ("a refused message is not answered", accepted or len(bottom.down) == 0)]
+
+
 def finding_key(case, label, values, where):
     if "messaging resumes after an accepted change" in label:
         return "C17|after an auto-trusted identity change no new session is built: messages stay encrypted for the old identity"
@@ -192,6 +231,7 @@ def cases(tier):
     for first in ("bundle-A", "first-message-A", "bundle-B", "first-message-B"):
         cs.append(dict(name="history[first=%s,len<=%d]" % (first, n), fn=_with_first(first), args=(n,), max_paths=400000, timeout_s=900 if tier == "quick" else 3400, keep_samples=8, weight=100))
     cs.append(dict(name="step[getKeysFor]", fn=h_step_getkeys))
+    cs.append(dict(name="step[handleEncMessage]", fn=h_step_receive))
     return cs
 
 
